@@ -8,6 +8,7 @@ against the running forward error bound of the reference interpreter).
 """
 import itertools
 import operator
+import os
 import warnings
 import numpy as np
 from vf import core
@@ -19,11 +20,12 @@ from .common import chunks
 RULE = ("one evaluation = one observable (returned value, out= buffer, alias of an in-place target) of one node of one variant of an "
         "expression program, compared with the reference interpreter (SI magnitude within the running error bound - bit-for-bit in the "
         "dyadic pool - dimension vector, shape), plus one evaluation per node and re-expressed variant for the metamorphic comparison "
-        "and one per +/- node for the left-most-unit rule. Programs: random DAGs (depth <= 6, 46 operations x call forms "
-        "{operator, ufunc call, out= unyt buffer, out= ndarray, in-place operator, ufunc.outer, reduce/accumulate, np function, method}) "
-        "and an enumerated depth-1 matrix (every operation x form x ordered pair of pool units x operand kinds). "
-        "distinct = (pool, operation, form, operand-unit relation, operand kinds, observable, law) tuples that were judged on a "
-        "non-trivial case")
+        "(same SI result / same refusal) and one per +/- observable for the left-most-unit rule. Programs: random DAGs (depth <= 6, up to 10 "
+        "operations drawn from 52 operations x call forms {operator, ufunc call, out= unyt buffer, out= ndarray, in-place operator, "
+        "ufunc.outer, reduce/accumulate, np function, method} = 145 catalogue entries, leaves independently re-expressed in 2-3 other "
+        "commensurable units, two registries per pool) and an enumerated depth-1 matrix (every operation x form x ordered pair of pool "
+        "units x operand kinds array/scalar/bare x exponent kinds x axes; dyadic pool also x operand dtypes f4/i8/c16). "
+        "distinct = (pool, operation, form, operand-unit relation, operand kinds incl. dtype, observable, law) tuples judged on a case")
 ASSUMPTIONS = (
     "operand SI magnitude = operand.d * operand.units.base_value as observed on the leaf (the property's observe_at); that the unit table is right is C02's subject - leaf scales are cross-checked against vf/ref (dyadic: exactly, real: 1e-5) and a disagreeing program is skipped and noted",
     "reference interpreter vf/ref/siinterp.py: the same NumPy routine applied to plain float64 SI arrays; error model ROUND=6 ulp per operation in the real pool, NEAR=8 ulp for cbrt/pow/hypot/trig/arctan2 in both pools, 0 otherwise in the dyadic pool",
@@ -33,13 +35,14 @@ ASSUMPTIONS = (
     "left-most-unit rule: judged when both operands of + / - are quantities; when one side is a bare number (1 + 5*percent -> dimensionless; an all-zero percent array minus a bare array -> dimensionless) unyt applies its documented bare-number/zero idiom (C01's subject), the value is still judged and the label is recorded as a note only",
     "sin/cos/tan are driven only with operands whose dimension is exactly angle; exp/log/hyperbolic/inverse trig, rounding family, frexp/modf/spacing/nextafter/heaviside/ldexp are outside the claim and not driven; offset and logarithmic units are excluded (C08)",
     "method call forms (a.dot, a.sum, a.mean, ...) are driven only on quantities: a plain ndarray's C methods (ndarray.dot(quantity) returns a bare array) cannot be intercepted by unyt and are not unyt call forms",
+    "every power is charged NEAR ulps even in the dyadic pool (NumPy evaluates x**2, x**0.5, np.power(x, array) by different routines that differ in the last place), so powers never feed a discontinuous operation in the dyadic pool; cube-root units (4096**(1/3) is not exactly 16 in float pow) get 4 ulp slack and are never leaf units there",
+    "float32 operands (dtype matrix) are combined only with units at most 2**12 apart: a 2**24 ratio exhausts the 24-bit significand and the exact-sum argument no longer holds",
     "an out= ndarray / bare in-place target has no unit label: its numbers must equal the numbers of the returned quantity",
     "the same symbol defined with different sizes in two registries is a legitimate operand pair (custom-registry units of the quantifier); each operand means what its own registry says",
 )
-MIN_EVALS = 20000
+MIN_EVALS = 100000
 TIMEOUT = 1500
 EPS = siinterp.EPS
-import os
 DEBUG = bool(os.environ.get('VERIF_C04_DEBUG'))
 
 OPER = {"add": operator.add, "subtract": operator.sub, "multiply": operator.mul, "divide": operator.truediv,
@@ -62,6 +65,7 @@ def batches(tier, seed):
     for k in range(nb):
         b.append((f"dy/rand/{k}", ("rand", "dyadic", seed, per, 3 if q else 4)))
         b.append((f"re/rand/{k}", ("rand", "real", seed, per, 3 if q else 4)))
+    b.append(("dy/matrix/dtypes/0", ("dtypes", "dyadic", tier)))
     for pool in ("dyadic", "real"):
         groups = {}
         for op, (cat, forms) in G.CATALOGUE.items():
@@ -122,6 +126,9 @@ def build_leaves(env, prog, j, rec):
             continue
         shape = tuple(nd["shape"])
         v0 = np.array(nd["vals"], dtype=float).reshape(shape)
+        if nd.get("imag") is not None:
+            v0 = v0 + 1j * np.array(nd["imag"], dtype=float).reshape(shape)
+        dt = {"f4": np.float32, "i8": np.int64, "c16": np.complex128}.get(nd.get("dtype"), np.float64)
         if nd["kind"] == "bare":
             objs[i] = float(v0) if shape == () else v0.copy()
             refs[i] = siinterp.leaf(v0, 1.0, dims.ZERO)
@@ -148,9 +155,9 @@ def build_leaves(env, prog, j, rec):
             rec.note("leaf-dimension-differs-from-ref-table")
             raise Skip()
         if shape == ():
-            objs[i] = unyt.unyt_quantity(float(vj), uj)
+            objs[i] = unyt.unyt_quantity(dt(vj) if dt is not np.float64 else float(vj), uj)
         else:
-            objs[i] = unyt.unyt_array(np.array(vj, dtype=float), uj)
+            objs[i] = unyt.unyt_array(np.array(vj, dtype=dt), uj)
         refs[i] = siinterp.leaf(vj, sj, rdj, relerr)
     return objs, refs
 
@@ -158,8 +165,8 @@ def build_leaves(env, prog, j, rec):
 # ------------------------------------------------------------------------------------------------ executing one node with unyt
 def fresh(unyt, x):
     if isinstance(x, unyt.unyt_array):
-        return type(x)(np.array(np.asarray(x.d), dtype=float, copy=True), x.units)
-    return np.array(x, dtype=float, copy=True)
+        return type(x)(np.array(np.asarray(x.d), copy=True), x.units)
+    return np.array(x, copy=True)
 
 
 def exec_node(env, nd, objs):
@@ -223,6 +230,8 @@ def exec_node(env, nd, objs):
         p, pk = nd["p"], nd["pkind"]
         e = {"int": lambda: int(p), "float": lambda: float(p), "npfloat": lambda: np.float64(p), "arr0": lambda: np.array(float(p)),
              "qdimless": lambda: unyt.unyt_quantity(float(p), "dimensionless"),
+             "qscaled": lambda: (unyt.unyt_quantity(float(p) / 4096.0, env.unit("D4096", "A")) if env.pool.exact
+                                 else unyt.unyt_quantity(float(p) * 100.0, "percent")),
              "arrsame": lambda: np.full(np.shape(a), float(p))}[pk]()
         if form == "op":
             return {"ret": a ** e}
@@ -282,14 +291,18 @@ def observe(x):
 
 
 def okind(x):
+    dt = np.asarray(x).dtype
+    tag = "" if dt == np.float64 else f"[{dt.kind}{dt.itemsize}]"
     if hasattr(x, "units") and isinstance(x, np.ndarray):
-        return "q" if x.shape == () else "a"
-    return "b" if np.ndim(x) == 0 else "n"
+        return ("q" if x.shape == () else "a") + tag
+    return ("b" if np.ndim(x) == 0 else "n") + tag
 
 
 def relation(env, nd, objs, refs):
     """structural description of the operand units of a node (for keys and cells)"""
     a = [objs[i] for i in nd["args"]]
+    if nd["op"] == "power":
+        return "exp-" + nd["pkind"] + ("" if hasattr(a[0], "units") else ":bare-base")
     if len(a) == 1:
         u = getattr(a[0], "units", None)
         if u is None:
@@ -313,6 +326,11 @@ def relation(env, nd, objs, refs):
     return "mixed-units"
 
 
+def _f(num):
+    a = np.asarray(num)
+    return a.astype(complex) if a.dtype.kind == "c" else a.astype(float)
+
+
 def compare(num, scale, ref, exact, extra_slack=0.0):
     """-> (ok, n_judged, worst) for magnitudes num*scale against the reference value"""
     r = ref.si
@@ -325,7 +343,7 @@ def compare(num, scale, ref, exact, extra_slack=0.0):
             got = got != 0
         return bool(np.all(got[m] == r[m])), int(m.sum()), None
     with np.errstate(all="ignore"):
-        si = np.asarray(num, dtype=float) * scale
+        si = _f(num) * scale
         if si.shape != r.shape:
             return False, 0, "shape"
         tol = ref.err * (1 + 1e-9) + extra_slack * np.abs(r)
@@ -340,7 +358,7 @@ def compare(num, scale, ref, exact, extra_slack=0.0):
 def si_of(x):
     num, scale, dim, us = observe(x)
     with np.errstate(all="ignore"):
-        return np.asarray(num, dtype=float) * scale if np.asarray(num).dtype.kind != "b" else np.asarray(num)
+        return _f(num) * scale if np.asarray(num).dtype.kind != "b" else np.asarray(num)
 
 
 def nondyadic(scale):
@@ -381,7 +399,7 @@ def judge_node(env, rec, prog, j, i, nd, obs, ref, rel, kinds, left=None):
             ret_num = num
         if name in ("outnd",) or (name == "alias" and us is None):
             # a unit-less target: its numbers are the numbers of the returned quantity
-            if ret_num is None or np.shape(num) != np.shape(ret_num) or not np.array_equal(np.asarray(num, dtype=float), np.asarray(ret_num, dtype=float), equal_nan=True):
+            if ret_num is None or np.shape(num) != np.shape(ret_num) or not np.array_equal(_f(num), _f(ret_num), equal_nan=True):
                 viol(name, "target", f"C04:{tag}:target-numbers-differ-from-result:{name}:{rel}",
                      f"{where}: {name} holds {np.asarray(num).tolist()} but the returned quantity holds {np.asarray(ret_num).tolist() if ret_num is not None else None}")
             else:
@@ -394,7 +412,7 @@ def judge_node(env, rec, prog, j, i, nd, obs, ref, rel, kinds, left=None):
                      f"{where}: the quotient {name} = {np.asarray(num).tolist()} is labelled {us} (the unit of the first operand); a quotient of commensurable quantities is a pure number")
                 continue
         if dim != rv.dim:
-            viol(name, "dimension", f"C04:{tag}:dimension:{name}", f"{where}: {name} has unit {us} (dimension {dims.show(dim)}); "
+            viol(name, "dimension", f"C04:{tag}:dimension:{name}:{rel}", f"{where}: {name} has unit {us} (dimension {dims.show(dim)}); "
                  f"dimensional analysis gives {dims.show(rv.dim)}")
             continue
         slack = 0.0
@@ -410,7 +428,7 @@ def judge_node(env, rec, prog, j, i, nd, obs, ref, rel, kinds, left=None):
             continue
         if not ok:
             with np.errstate(all="ignore"):
-                got = (np.asarray(num, dtype=float) * scale).tolist() if not rv.isbool else np.asarray(num).tolist()
+                got = (_f(num) * scale).tolist() if not rv.isbool else np.asarray(num).tolist()
             key = f"C04:{tag}:value:{name}:{rel}"
             if op == "divmod" and rel in ("mixed-units", "same-symbol-other-registry", "scaled-pure-numbers"):
                 key = f"C04:{tag}:second-operand-not-rescaled"      # one mechanism (pass-through unit rule), whatever output shows it
@@ -446,9 +464,10 @@ def describe(prog, j, i):
 
 
 def short(x, reg):
-    v = np.asarray(getattr(x, "d", x)).tolist()
+    v = np.asarray(getattr(x, "d", x))
+    v = f"{v.tolist()}" + ("" if v.dtype == np.float64 else f":{v.dtype}")
     u = getattr(x, "units", None)
-    return f"{v}" + (f" {u}" + (f"@{reg}" if reg not in (None, "default", "A") else "") if u is not None else " (bare)")
+    return v + (f" {u}" + (f"@{reg}" if reg not in (None, "default", "A") else "") if u is not None else " (bare)")
 
 
 def left_unit_rule(env, rec, prog, j, i, nd, obs, objs, rel, kinds):
@@ -474,6 +493,7 @@ def left_unit_rule(env, rec, prog, j, i, nd, obs, objs, rel, kinds):
                               f"{describe(prog, j, i)}: {name} comes back in {xu} although the left-most operand is in {lu}", prog, j, i))
         else:
             rec.ok((env.pool.name, nd["op"], nd["form"], rel, kinds, name, "left-unit"))
+            rec.count("left-unit-rule-held")
     return keys
 
 
@@ -512,9 +532,8 @@ def run_program(env, rec, prog, group_log=None):
                 raise
             except Exception as e:
                 out[i] = ("raise", type(e).__name__, rel, kinds, str(e)[:160])
-                if DEBUG:
-                    import traceback, json
-                    open("/tmp/C04-scratch/dbg_progs.jsonl", "a").write(json.dumps({"exc": type(e).__name__, "j": j, "i": i, "prog": prog}) + "\n")
+                if DEBUG:      # VERIF_C04_DEBUG=1: keep the message and raise site of every refusal in the notes
+                    import traceback
                     rec.note(f"dbg:{type(e).__name__}:{str(e)[:120]} :: {describe(prog, j, i)} kinds={kinds} :: " + " | ".join(l.strip().replace(",", ";") for l in traceback.format_tb(e.__traceback__)[-3:]))
                 break
             rec.count(f"{pool.name}:executed")
@@ -671,13 +690,18 @@ def matrix_programs(env, tier, ops, rnd, part=0, nparts=1):
                     for ip, p in enumerate(G.POWERS):
                         if ip % nparts != part:
                             continue
-                        for pk in G.PKINDS:
+                        for pk in G.PKINDS_MATRIX:
                             if pk == "int" and p != int(p):
                                 continue
                             for s in [(3,), ()]:
                                 if pk == "arrsame" and s == ():
                                     continue
                                 yield G.single_op_program(rnd, pool, op, form, [(u, s, main)], extra=(int(p) if pk == "int" else p, pk))
+                if form in ("op", "call"):      # bare base, exponent is a dimensionless quantity: 2.0 ** (50 percent)
+                    for ip, p in enumerate(G.POWERS):
+                        if ip % nparts == part:
+                            for pk in ("qdimless", "qscaled"):
+                                yield G.single_op_program(rnd, pool, op, form, [(None, (), None)], extra=(p, pk))
             elif cat == "reduce":
                 units = [u for us in fams.values() for u in us[:3]]
                 for u in units:
@@ -696,6 +720,40 @@ def matrix_programs(env, tier, ops, rnd, part=0, nparts=1):
                             yield G.single_op_program(rnd, pool, op, form, [(ua, sa, ra), (ub, sb, rb)])
 
 
+DT_OPS = {
+    "exact": ["add", "subtract", "multiply", "maximum", "minimum", "less", "greater_equal", "equal", "not_equal", "floor_divide", "remainder"],
+    "f8only": ["divide", "hypot"],           # inexact results: only between float64 / int64 operands (both computed in float64)
+    "complex": ["add", "subtract", "multiply", "divide", "equal", "not_equal"],
+}
+
+
+def dtype_programs(env, tier, rnd):
+    """dyadic pool only (all numbers exact): operand dtypes float32 / int64 / complex128 mixed with float64, every ordered unit pair"""
+    pool = env.pool
+    dts = ["f8", "f4", "i8", "c16"]
+    L, T = DY_UNITS["L"][:3], DY_UNITS["T"][:3]
+    shapes = [((3,), (3,)), ((), (3,)), ((3,), ())] + ([] if tier == "quick" else [((), ()), ((2, 3), (3,))])
+    for da, db in itertools.product(dts, dts):
+        if da == db == "f8":
+            continue
+        if "c16" in (da, db):
+            ops = DT_OPS["complex"]
+        else:
+            ops = DT_OPS["exact"] + (DT_OPS["f8only"] if "f4" not in (da, db) else [])
+        for op in ops:
+            cat, forms = G.CATALOGUE[op]
+            for form in forms:
+                pairs = list(itertools.product(L, L)) + (list(itertools.product(L, T)) + [("L4096**2/L1", "L1")] if cat == "bin_any" else [])
+                regs = [("A", "A")] + ([("A", "B")] if tier != "quick" or op in ("add", "less", "multiply") else [])
+                for (ra, rb) in regs:
+                    for ua, ub in pairs:
+                        if "f4" in (da, db) and cat == "bin_same" and \
+                                abs(dyadic.log2scale(ua, pool.table(ra)) - dyadic.log2scale(ub, pool.table(rb))) > dyadic.STEP:
+                            continue      # a 2**24 ratio exhausts float32's 24-bit significand: the sum is not exact any more
+                        for (sa, sb) in shapes:
+                            yield G.single_op_program(rnd, pool, op, form, [(ua, sa, ra), (ub, sb, rb)], dtypes=(da, db))
+
+
 def check_groups(env, rec, log):
     """matrix refusals: within one (operation, form, operand kinds, relation class) group every unit pair must agree"""
     groups = {}
@@ -703,7 +761,7 @@ def check_groups(env, rec, log):
         coarse = "same-dim" if rel in ("same-unit", "mixed-units", "same-symbol-other-registry", "scaled-pure-numbers") else rel
         leaves = [prog["nodes"][a] for a in nd["args"]]
         dimsig = tuple(dims.show(env.pool.ref(l["units"][0], l["reg"])[1]) if l["kind"] == "q" else "bare" for l in leaves)
-        k = (nd["op"], nd["form"], kinds, coarse, dimsig, nd.get("p"), nd.get("pkind"), str(nd.get("axis")), str([l["shape"] for l in leaves]))
+        k = (nd["op"], nd["form"], kinds, coarse, dimsig, nd.get("p"), nd.get("pkind"), str(nd.get("axis")), str([(l["shape"], l.get("dtype")) for l in leaves]))
         groups.setdefault(k, {}).setdefault(status, []).append((exc, prog, desc))
     for k, g in groups.items():
         if "raise" in g and "ok" in g:
@@ -737,6 +795,16 @@ def worker(batch, rec):
                 rec.count(f"{pool}:programs-judged")
             if made <= 2:
                 rec.sample({"program": prog})
+    elif kind == "dtypes":
+        r = core.rng(0, bid)
+        log = []
+        for prog in dtype_programs(env, payload[2], r):
+            if prog is None:
+                rec.count(f"{pool}:matrix-cells-rejected-by-generator")
+                continue
+            rec.count(f"{pool}:dtype-matrix-programs")
+            run_program(env, rec, prog, log)
+        check_groups(env, rec, log)
     else:
         _, _, tier, ops, part, nparts = payload
         r = core.rng(0, bid)
@@ -758,8 +826,13 @@ def extra(tier, seed, results):
             counters[k] = counters.get(k, 0) + v
         reached.update(r.get("reached", []))
     catalogue = {f"{op}/{f}" for op, (c, forms) in G.CATALOGUE.items() for f in forms}
-    need = ["dyadic:executed", "real:executed", "dyadic:reexpression-compared", "real:reexpression-compared", "dyadic:matrix-programs", "real:matrix-programs"]
+    need = ["dyadic:executed", "real:executed", "dyadic:reexpression-compared", "real:reexpression-compared", "dyadic:matrix-programs",
+            "real:matrix-programs", "dyadic:dtype-matrix-programs", "left-unit-rule-held"]
     zero = [k for k in need if not counters.get(k)]
     if zero:
         raise core.Inconclusive("sub-monitor-saw-nothing:" + ",".join(zero))
+    skipped = sum(v for bid, r in results for k, v in r.get("notes", {}).items() if k.startswith("leaf-"))
+    programs = sum(counters.get(k, 0) for k in ("dyadic:programs", "real:programs", "dyadic:matrix-programs", "real:matrix-programs"))
+    if skipped > 0.05 * max(programs, 1):
+        raise core.Inconclusive(f"{skipped}-of-{programs}-programs-skipped:leaf-units-disagree-with-the-reference-table")
     return {"unreached": sorted(catalogue - reached), "catalogue_size": len(catalogue), "sub_monitor_counters": {k: counters.get(k, 0) for k in need}}
